@@ -41,7 +41,8 @@ theorem fact_shapes :
     Generated.Ipam.rollbackOnCreateFailure = true ∧ Generated.Ipam.rollbackCoversAllCreated = true ∧
     Generated.Ipam.memoryUpdatedAfterAllCreates = true ∧ Generated.Ipam.handlersMakeNoStoreCall = true ∧
     Generated.Ipam.updateIsGetThenUpdate = true ∧ Generated.Ipam.walkOverflowSafe = true ∧
-    Generated.Ipam.unassignEventChecksReserved = true ∧ Generated.Ipam.rollbackKeepsUndeletedInMemory = true := by decide
+    Generated.Ipam.unassignEventChecksReserved = true ∧ Generated.Ipam.rollbackKeepsUndeletedInMemory = true ∧
+    Generated.Ipam.reloadListsApiserver = true ∧ Generated.Ipam.reloadListIsConsistentRead = true := by decide
 
 /-- `Agree` holds initially (empty process, empty store). -/
 theorem agree_init : Agree init := agree_init'
